@@ -208,19 +208,27 @@ def rule_python_maskers(ctx):
     ctx.require(c is not None, "XorMaskerShifted1 not found")
     init = c.methods["__init__"]
     ctx.analysed(init, c.methods["process"])
-    loops = [n for n in walk_no_defs(init.node) if isinstance(n, ast.For)]
-    ctx.require(len(loops) == 1 and isinstance(loops[0].iter, ast.Call) and [norm.text(a) for a in loops[0].iter.args] == ["4"], "Shifted1.__init__: table loop not found")
-    jv = norm.text(loops[0].target)
-    J = np.arange(4)
+    # the four shifted key tables, obtained by evaluating the constructor on a symbolic mask (m0, m1, m2, m3): entry [r][j] names which
+    # mask octet it holds, however the tables are filled (unrolled appends, nested loops, comprehensions of the modelled subset)
+    from ..core.tiny import Tiny, Sym
+    mask_syms = [Sym(f"m{i}") for i in range(4)]
     table = {}
-    for s in loops[0].body:
-        cc = s.value if isinstance(s, ast.Expr) else None
-        ok = isinstance(cc, ast.Call) and isinstance(cc.func, ast.Attribute) and cc.func.attr == "append" and isinstance(cc.func.value, ast.Subscript) and \
-            norm.text(cc.func.value.value) == "self._mskarray" and isinstance(cc.args[0], ast.Subscript) and norm.text(cc.args[0].value) == "mask"
-        ctx.require(ok, f"Shifted1.__init__: unexpected table statement {stmt_key(s)}")
-        row = cc.func.value.slice.value
-        table[row] = _res_index(cc.args[0].slice, {jv: J}) + np.zeros(4, dtype=np.int64)
-    ctx.ob("XorMaskerShifted1: four shifted tables", sorted(table) == [0, 1, 2, 3], f"rows {sorted(table)}", init.loc())
+    try:
+        def default(f_, a_, k_=None):
+            if f_ == "array":
+                return list(a_[1]) if len(a_) > 1 and isinstance(a_[1], list) else []
+            if f_ == "len":
+                return len(a_[0])
+            return Sym(f"<{f_}>")
+        t = Tiny({init.params()[1]: mask_syms, "self": Sym("masker")}, default_call=default)
+        t.run([x for x in init.node.body if not (isinstance(x, ast.Expr) and isinstance(x.value, ast.Constant))])
+        arr = t.env.get("self._mskarray") or t.env["self"].attrs.get("_mskarray")
+        if isinstance(arr, list) and len(arr) == 4 and all(isinstance(r_, list) and len(r_) == 4 and all(x in mask_syms for x in r_) for r_ in arr):
+            for r_i, r_ in enumerate(arr):
+                table[r_i] = np.array([mask_syms.index(x) for x in r_], dtype=np.int64)
+    except AnalysisError as e:
+        raise AnalysisError(f"[C15.1-python-xor-index] XorMaskerShifted1.__init__ outside the modelled subset: {e}")
+    ctx.ob("XorMaskerShifted1: four shifted tables of four mask octets", sorted(table) == [0, 1, 2, 3], f"rows {sorted(table)}", init.loc())
     proc = c.methods["process"]
     if sorted(table) == [0, 1, 2, 3]:
         T = np.stack([table[r] for r in range(4)])
@@ -397,11 +405,19 @@ def rule_c_maskers(ctx):
     ctx.require(w is not None, "XorMaskerNvx wrapper missing")
     proc = w.methods["process"]
     ctx.analysed(proc)
-    t = {norm.text(s.targets[0]): norm.text(s.value) for s in walk_no_defs(proc.node) if isinstance(s, ast.Assign)}
-    calls = {norm.text(c.func): [norm.text(a) for a in c.args] for c in calls_in(proc.node)}
-    ok = t.get("data_len") == "len(data)" and calls.get("self.ffi.memmove") == ["data_buffer", "data", "data_len"] and \
-        calls.get("self.lib.nvx_xormask_process") == ["self._masker", "data_buffer", "data_len"] and calls.get("self.ffi.buffer") == ["data_buffer", "data_len"]
-    ctx.ob("XorMaskerNvx.process: copies, processes and returns exactly len(data) octets", ok, f"{t} {calls}", proc.loc())
+    # as terms (local names irrelevant): a fresh buffer of len(data) octets receives data, is processed in place for len(data) octets and returned
+    from ..core.terms import TermEval, show
+    te = TermEval(ctx.program, proc, inline=lambda c, f: None).run()
+    D = ("p", proc.params()[1])
+    N = ("call", ("g", "len"), (D,), ())
+    ffi, lib = ("attr", ("p", "self"), "ffi"), ("attr", ("p", "self"), "lib")
+    BUF = ("m", ffi, "new", (("c", "uint8_t[]"), N), ())
+    eff = [t_ for c_, t_, st_ in te.effects]
+    rets = [o.term for o in te.outcomes if o.kind == "return"]
+    ok = ("m", ffi, "memmove", (BUF, D, N), ()) in eff and ("m", lib, "nvx_xormask_process", (("attr", ("p", "self"), "_masker"), BUF, N), ()) in eff and \
+        rets == [("call", ("g", "bytes"), (("m", ffi, "buffer", (BUF, N), ()),), ())] and \
+        [i for i, t_ in enumerate(eff) if t_[0] == "m" and t_[2] == "memmove"] < [i for i, t_ in enumerate(eff) if t_[0] == "m" and t_[2] == "nvx_xormask_process"]
+    ctx.ob("XorMaskerNvx.process: copies, processes and returns exactly len(data) octets", ok, f"effects {[show(x)[:70] for x in eff]} returns {[show(x)[:70] for x in rets]}", proc.loc())
     r = [s for s in walk_no_defs(w.methods["pointer"].node) if isinstance(s, ast.Return)]
     ctx.ob("XorMaskerNvx.pointer: native pointer", len(r) == 1 and norm.text(r[0].value) == "self.lib.nvx_xormask_pointer(self._masker)", "changed", w.loc())
 
@@ -470,16 +486,59 @@ def rule_mask_policy(ctx):
     fn = wsp.methods["beginMessageFrame"]
     ctx.analysed(fn)
     g, mf, res = an.get(fn)
-    ks = find_assign_nodes(g, "send_message_frame_mask")
-    ok = len(ks) == 2
-    for n, v in ks:
-        f = mf.at(n)
-        if norm.text(v) == "None":
-            continue
-        ok = ok and norm.text(v) == "struct.pack('!I', random.getrandbits(32))" and any(fa[0] == "any" and {"self.maskClientFrames", "self.maskServerFrames"} <= set(norm.mentions(fa)) for fa in f)
-    ctx.ob("beginMessageFrame: fresh key per frame under the role policy", ok, "changed", fn.loc())
-    bit = [n for n in g.stmt_nodes() if n.kind == "stmt" and isinstance(n.ast, ast.AugAssign) and norm.text(n.ast.target) == "b1" and norm.key(n.ast.value, res) == ("c", 128)]
-    ctx.ob("beginMessageFrame: mask bit set iff a key was generated", len(bit) == 1 and ("truth", "self.send_message_frame_mask", None, True) in mf.at(bit[0]), "changed", fn.loc())
+    # cell-wise over (role, mask options, frame position in the message, frame length, key of the previous frame): the header carries the
+    # mask bit and 4 key octets iff the role policy says so, and the key is drawn anew in THIS call (never the previous frame's)
+    from ..core.tiny import Tiny, Sym, Buf
+    import itertools
+    S_BEGIN = ctx.program.class_const(wsp, "SEND_STATE_MESSAGE_BEGIN")
+    S_INSIDE = ctx.program.class_const(wsp, "SEND_STATE_INSIDE_MESSAGE")
+    S_OPEN = ctx.program.class_const(wsp, "STATE_OPEN")
+    probs = []
+    body = [x for x in fn.node.body if not (isinstance(x, ast.Expr) and isinstance(x.value, ast.Constant))]
+    try:
+        for is_server, mcf, msf, sstate, length, prev in itertools.product((False, True), (True, False), (False, True), (S_BEGIN, S_INSIDE), (0, 5, 300, 70000), (None, "old")):
+            keys = []
+            sent = []
+
+            def default(f_, a_, k_=None):
+                if f_ == "struct.pack" and a_ and a_[0] in ("!I", ">I"):
+                    k = Sym(f"key{len(keys)}", of=a_[1])
+                    keys.append(k)
+                    return k
+                if f_ == "struct.pack":
+                    return ("ext", a_[0], a_[1])
+                if f_ == "random.getrandbits":
+                    return Sym("random32", bits=a_[0])
+                if f_ == "self.sendData":
+                    sent.append(a_[0])
+                    return None
+                return Sym(f"<{f_}>")
+            old = Sym("previous-frame-key") if prev else None
+            env = {"self.state": S_OPEN, "self.send_state": sstate, fn.params()[1]: length, "self.factory.isServer": is_server, "self.maskClientFrames": mcf,
+                   "self.maskServerFrames": msf, "self.send_message_frame_mask": old, "self.applyMask": True, "self.send_message_opcode": 2, "self.send_compressed": False,
+                   "self.trafficStats.outgoingWebSocketFrames": 0, "WebSocketProtocol.STATE_OPEN": S_OPEN, "WebSocketProtocol.SEND_STATE_MESSAGE_BEGIN": S_BEGIN,
+                   "WebSocketProtocol.SEND_STATE_INSIDE_MESSAGE": S_INSIDE,
+                   "WebSocketProtocol.SEND_STATE_INSIDE_MESSAGE_FRAME": ctx.program.class_const(wsp, "SEND_STATE_INSIDE_MESSAGE_FRAME"), "int": "int"}
+            t = Tiny(env, default_call=lambda f_, a_, k_=None: "int" if f_ == "type" else default(f_, a_, k_))
+            r = t.run(body)
+            want = (not is_server and mcf) or (is_server and msf)
+            cell = f"{'server' if is_server else 'client'}, maskClientFrames={mcf}, maskServerFrames={msf}, {'first' if sstate == S_BEGIN else 'later'} frame, length {length}"
+            if r[0] == "raise" or len(sent) != 1 or not (isinstance(sent[0], tuple) and sent[0][0] == "joined" and len(sent[0][1]) == 4):
+                probs.append(f"{cell}: header not written as [octet, octet, ext-length, mask] ({r[0]})")
+                continue
+            h0, h1, ext, mv = sent[0][1]
+            bit = isinstance(h1, tuple) and h1[0] == "octets" and bool(h1[1] & 0x80)
+            fresh = isinstance(mv, Sym) and mv in keys and isinstance(mv.attrs.get("of"), Sym) and mv.attrs["of"].name == "random32" and mv.attrs["of"].attrs.get("bits") == 32
+            if bit != want:
+                probs.append(f"{cell}: mask bit {'set' if bit else 'clear'}, policy says {'mask' if want else 'do not mask'}")
+            if want and not fresh:
+                probs.append(f"{cell}: the frame does not carry a key drawn for this frame (carries {mv})")
+            if not want and not (isinstance(mv, Buf) and len(mv) == 0):
+                probs.append(f"{cell}: unmasked frame carries key octets {mv}")
+        ctx.ob("beginMessageFrame: mask bit and a freshly drawn 32-bit key iff (client and maskClientFrames) or (server and maskServerFrames), for every frame of a "
+               "streamed message [128 cells]", not probs, "; ".join(sorted(set(probs))[:2]), fn.loc())
+    except AnalysisError as e:
+        raise AnalysisError(f"[C15.4-mask-policy] beginMessageFrame outside the modelled subset: {e}")
     # prepareMessage / PreparedMessage
     pm = ctx.program.func("autobahn.websocket.protocol.WebSocketFactory.prepareMessage")
     am = [s for s in walk_no_defs(pm.node) if isinstance(s, ast.Assign) and norm.text(s.targets[0]) == "applyMask"]
